@@ -95,6 +95,11 @@ var transTargets = []transTarget{
 	{"message/kakfamessagereceiver.go", "KafkaMessageReceiver", "processInitBuffer", "loop0", "mrInitBufferBody"},
 	// C11
 	{"executor/message.go", "Executor", "deliverMessageToNode", "", "exDeliverToNode"},
+	{"executor/message.go", "Executor", "deliverMessage", "", "exDeliverMessage"},
+	// C01 / C02 (tree construction)
+	{"node/node.go", "", "InitNodeContextHierarchy", "head0", "initHead"},
+	{"node/node.go", "", "InitNodeContextHierarchy", "loop0", "initChildBody"},
+	{"node/node.go", "", "InitNodeContextHierarchy", "tail0", "initTail"},
 	// C12
 	{"message/kafkamessagesender.go", "KafkaMessageSender", "produceMessage", "", "msProduceMessage"},
 	{"message/kafkamessagesender.go", "KafkaMessageSender", "Send", "", "msSend"},
@@ -112,11 +117,11 @@ var minMaxPure bool // set per target: the target's package declares min and max
 
 type translator struct {
 	tmp         int
-	pre         []string          // hoisted calls of the statement being translated
-	noCtx       bool              // inside the right operand of && / ||: a call may not be hoisted
-	localMinMax bool              // the package declares its own min / max functions
-	consts      map[string]string // package-level integer constants of the target's package
-	multi       map[string]int    // how often each callee text occurs in the fragment
+	pre         []string                   // hoisted calls of the statement being translated
+	noCtx       bool                       // inside the right operand of && / ||: a call may not be hoisted
+	localMinMax bool                       // the package declares its own min / max functions
+	consts      map[string]string          // package-level integer constants of the target's package
+	multiArgs   map[string]map[string]bool // callee text -> the distinct argument texts it is called with in the fragment
 	bad         bool
 }
 
@@ -167,10 +172,12 @@ func (t *translator) callStmt(rets []string, c *ast.CallExpr) string {
 	for _, a := range c.Args {
 		args = append(args, t.loose(a))
 	}
-	// a callee with several results that the fragment calls more than once (strconv.Atoi on two different settings) may run
-	// twice in one run: its results are distinct inputs, named with the argument text
+	// a callee the fragment calls with different arguments (strconv.Atoi on two settings, InstantiateNode for the handler and
+	// for the node) may run twice in one run with different results: its results are distinct inputs, named with the argument
+	// text.  Calls with the same argument text share their inputs (a function of its arguments).  Error constructors are left
+	// alone: their results are only ever returned.
 	src := fn
-	if len(rets) > 1 && t.multi[fn] > 1 {
+	if len(t.multiArgs[fn]) > 1 && fn != "fmt.Errorf" && fn != "errors.New" {
 		var at []string
 		for _, a := range c.Args {
 			at = append(at, exprString(a))
@@ -716,10 +723,18 @@ func writeTrans(repo string) string {
 		term := "(.unsupported \"missing\")"
 		if body != nil {
 			minMaxPure = tt.name != "min" && tt.name != "max" && len(methodsOfFuncs(filepath.Join(repo, filepath.Dir(tt.file)), "min", "max")) == 2
-			t := &translator{localMinMax: minMaxPure, consts: pkgIntConsts(filepath.Join(repo, filepath.Dir(tt.file))), multi: map[string]int{}}
+			t := &translator{localMinMax: minMaxPure, consts: pkgIntConsts(filepath.Join(repo, filepath.Dir(tt.file))), multiArgs: map[string]map[string]bool{}}
 			ast.Inspect(body, func(nd ast.Node) bool {
 				if c, ok := nd.(*ast.CallExpr); ok {
-					t.multi[exprString(c.Fun)]++
+					fn := exprString(c.Fun)
+					var at []string
+					for _, a := range c.Args {
+						at = append(at, exprString(a))
+					}
+					if t.multiArgs[fn] == nil {
+						t.multiArgs[fn] = map[string]bool{}
+					}
+					t.multiArgs[fn][strings.Join(at, ", ")] = true
 				}
 				return true
 			})
